@@ -94,15 +94,29 @@ def build(node, tb, env):
         return Op.identity(dofs[0] if node.get("single") else dofs, qn_size=node["qs"], factor=scalar(node["f"]))
     if t == "sc":
         return scalar(node)
-    if t == "list":
-        return [build(x, tb, env) for x in node["items"]]
-    if t == "opsum":
-        return OpSum([build(x, tb, env) for x in node["items"]])
     if t == "var":
         return env[node["i"]]
+    # ---- composite nodes: operands first, then the operation, then the object-identity audit
+    if "items" in node:
+        kids = [build(x, tb, env) for x in node["items"]]
+    else:
+        kids = [build(node[k], tb, env) for k in ("a", "b") if isinstance(node.get(k), dict)]
+    audit = _AUDIT[-1] if _AUDIT else None
+    snap = [export(o, tb) for o in kids] if audit is not None else None
+    v = apply_node(node, kids)
+    if audit is not None:
+        audit_node(node, kids, snap, v, tb, audit)
+    return v
+
+
+def apply_node(node, kids):
+    t = node["t"]
+    if t == "list":
+        return list(kids)
+    if t == "opsum":
+        return OpSum(kids)
     if t == "bin":
-        a = build(node["a"], tb, env)
-        b = build(node["b"], tb, env)
+        a, b = kids
         o = node["op"]
         if node.get("aug"):
             f = {"+": operator.iadd, "-": operator.isub, "*": operator.imul, "/": operator.itruediv}[o]
@@ -110,32 +124,74 @@ def build(node, tb, env):
             f = {"+": operator.add, "-": operator.sub, "*": operator.mul, "/": operator.truediv}[o]
         return f(a, b)
     if t == "iadd":
-        a = build(node["a"], tb, env)
-        b = build(node["b"], tb, env)
+        a, b = kids
         a += b
         return a
     if t == "neg":
-        return -build(node["a"], tb, env)
+        return -kids[0]
     if t == "simplify":
-        a = build(node["a"], tb, env)
         if node.get("atol") is None:
-            return a.simplify()
-        return a.simplify(atol=scalar(node["atol"]))
+            return kids[0].simplify()
+        return kids[0].simplify(atol=scalar(node["atol"]))
     if t == "squeeze":
-        return build(node["a"], tb, env).squeeze_identity()
+        return kids[0].squeeze_identity()
     if t == "mksum":
-        return OpSum(build(node["a"], tb, env))
+        return OpSum(kids[0])
     if t == "mklist":
-        return list(build(node["a"], tb, env))
+        return list(kids[0])
     if t == "copy":
-        return build(node["a"], tb, env).copy()
+        return kids[0].copy()
     if t == "sprod":
-        return OpSum.product([build(x, tb, env) for x in node["items"]])
+        return OpSum.product(kids)
     if t == "oprod":
-        return Op.product([build(x, tb, env) for x in node["items"]])
+        return Op.product(kids)
     if t == "sum":
-        return sum([build(x, tb, env) for x in node["items"]])
+        return sum(kids)
     raise ValueError("unknown node %r" % (t,))
+
+
+_AUDIT = []          # stack of problem lists; empty = auditing off
+
+
+def audit_node(node, kids, snap, v, tb, problems):
+    """Object-identity discipline of the algebra (first principles, independent of the Coq model):
+      * an operation leaves its operands unchanged (deep field-by-field comparison before / after);
+      * a list-like result (OpSum or list) of a NON in-place operation is a new object -- it `is` none of its
+        operands -- so that mutating it in place (`+=`) cannot change what an operand denotes; this is checked
+        by actually appending a sentinel term to the result and re-comparing the operands, then undoing it;
+      * an in-place operation (`+=` on an OpSum / list) may return (and mutate) its left operand only.
+    `OpSum.product([x])` returns `x` itself on the unchanged tree (documented in notes/C15.md) and is exempt."""
+    t = node["t"]
+    inplace = t == "iadd" or (t == "bin" and node.get("aug") and node["op"] == "+")
+    label = t + (":" + node["op"] if t == "bin" else "")
+    for i, o in enumerate(kids):
+        if inplace and i == 0 and o is v:
+            continue
+        if export(o, tb) != snap[i]:
+            problems.append({"what": "operand changed by the operation", "node": label, "operand": i})
+    if not isinstance(v, list):
+        return
+    exempt = inplace or (t == "sprod" and len(kids) == 1)
+    aliased = [i for i, o in enumerate(kids) if o is v]
+    if aliased and not exempt:
+        problems.append({"what": "result is the operand object itself", "node": label, "operand": aliased[0],
+                         "operand_kinds": [type(o).__name__ for o in kids], "operand_lens": [len(o) if isinstance(o, list) else None for o in kids]})
+    if exempt:
+        return
+    n0 = len(v)
+    before = [export(o, tb) for o in kids]
+    try:
+        sentinel = Op("I", tb.dofs[0], 7.0)
+        if isinstance(v, OpSum):
+            v += sentinel
+        else:
+            v.append(sentinel)
+        for i, o in enumerate(kids):
+            if export(o, tb) != before[i]:
+                problems.append({"what": "mutating the result in place changes an operand (aliasing)", "node": label, "operand": i,
+                                 "operand_kinds": [type(x).__name__ for x in kids]})
+    finally:
+        del v[n0:]
 
 
 def frac(x):
@@ -198,14 +254,21 @@ def run_program(prog, tb):
         with warnings.catch_warnings():
             warnings.simplefilter("error", RuntimeWarning)
             env = []
-            for n in prog.get("lets", []):
-                env.append(build(n, tb, env))
-            before = [export(v, tb) for v in env]
-            v = build(prog["body"], tb, env)
+            problems = []
+            _AUDIT.append(problems)
+            try:
+                for n in prog.get("lets", []):
+                    env.append(build(n, tb, env))
+                before = [export(v, tb) for v in env]
+                v = build(prog["body"], tb, env)
+            finally:
+                _AUDIT.pop()
             res = export(v, tb)
             after = [export(x, tb) for x in env]
             if before != after:
                 res["mutated_operand"] = [i for i, (x, y) in enumerate(zip(before, after)) if x != y]
+            if problems:
+                res["audit"] = problems[:5]
             return res, v
     except Exception as e:  # noqa: BLE001 - every exception class is an outcome to report
         return {"tag": "err", "exc": type(e).__name__, "msg": str(e)[:160], "where": raised_in(e)}, None
@@ -246,7 +309,7 @@ def replay(case):
     implementation's result differs from the model's expected value, 0 otherwise."""
     tb = Tables(case["syms"], case["dofs"])
     res, _ = run_program(case["prog"], tb)
-    ok = same_result(res, case["expected"]) and not res.get("mutated_operand")
+    ok = same_result(res, case["expected"]) and not res.get("mutated_operand") and not res.get("audit")
     print("implementation:", res)
     print("model expects :", case["expected"])
     return 0 if ok else 1
@@ -261,12 +324,16 @@ def run_ct(case, tb):
     when every item is an Op / OpSum on known dofs."""
     from renormalizer.model import Model
     from renormalizer.model.basis import BasisHalfSpin
-    vals = []
-    for prog in case["items"]:
-        res, v = run_program(prog, tb)
+    order = case.get("repeat") or list(range(len(case["items"])))
+    built = {}
+    for i in order:                               # every referenced item is built once; repeats are the same object
+        if i in built:
+            continue
+        res, v = run_program(case["items"][i], tb)
         if res["tag"] == "err":
             return {"tag": "err", "exc": res.get("exc"), "msg": res.get("msg"), "where": "item"}, {"ok": True, "why": "item rejected"}
-        vals.append(v)
+        built[i] = v
+    vals = [built[i] for i in order]
     basis = [BasisHalfSpin(tb.dofs[i]) for i in case["known"]]
     known = set(tb.dofs[i] for i in case["known"])
     flat, wellformed = [], True
